@@ -1478,11 +1478,12 @@ class Repository:
                 with glock:
                     digests = files_digests[file_path]
                     digests.remove(digest)
-
-                if not digests:
-                    logger.info('Finished writing file %s', file_path)
-                    with glock:
+                    # Decide under the lock, so that exactly one thread finalises the file
+                    if finished := not digests:
                         restore_path, metadata = files_metadata.pop(file_path)
+
+                if finished:
+                    logger.info('Finished writing file %s', file_path)
                     self.restore_metadata(restore_path, metadata)
                     finished_tracker.update()
 
